@@ -155,6 +155,68 @@ def writers(ctx, count):
                 break
 
 
+def nonfinite_programs(ctx, count):
+    """results holding NaN / infinity at non-missing cells (what division, logarithms or a file may deliver), consumed inside a Program by
+    several commands one after the other: cleaning the reference, validating the type and running the consumer leave the stored result as it
+    was - same missing cells, same numbers, NaN and infinity included"""
+    from collections import OrderedDict
+    from mpilot.program import Program
+    from mpilot.arguments import Argument, ListArgument
+    rng = ctx.rng
+    lib = eems.arrays_lib()
+    for i in range(count):
+        shape = eems.rand_shape(rng)
+        n = int(numpy.prod(shape))
+        lib.HOLD.clear()
+        p = Program(libraries=("mpilot.libraries.eems.basic", "mpilot.libraries.eems.fuzzy", eems.ARRLIB))
+        held = {}
+        for k in range(2):
+            vals = [rng.choice([0.5, -1.0, 2.0, float("nan"), float("inf"), float("-inf"), 0.0]) for _ in range(n)]
+            mask = eems.rand_mask(rng, n, rng.choice(["none", "one", "some"]))
+            if rng.random() < 0.4:
+                a = numpy.ma.array(numpy.array(vals).reshape(shape))                      # no mask array at all
+            else:
+                a = numpy.ma.array(numpy.array(vals).reshape(shape), mask=numpy.array(mask).reshape(shape))
+            held["H%d" % k] = a
+            lib.HOLD["H%d" % k] = a
+            p.add_command(lib.HeldData, "H%d" % k, OrderedDict())
+            p.commands["H%d" % k].result
+        snaps = {k: (numpy.ma.getmaskarray(a).copy(), numpy.ma.getdata(a).copy(), type(numpy.ma.getmask(a))) for k, a in held.items()}
+        steps = []
+        for j in range(rng.randrange(2, 5)):
+            cmd = rng.choice(["Copy", "Sum", "Maximum", "AMinusB", "Normalize", "CvtToFuzzy", "Mean", "Multiply"])
+            how = eems.COMMANDS[cmd][1]
+            args = OrderedDict()
+            if how == "one":
+                args["InFieldName"] = Argument("InFieldName", rng.choice(["H0", "H1"]))
+            elif how == "ab":
+                args["A"] = Argument("A", "H0"); args["B"] = Argument("B", "H1")
+            else:
+                names = [rng.choice(["H0", "H1"]) for _ in range(rng.randrange(1, 3))]
+                args["InFieldNames"] = ListArgument("InFieldNames", names, 3, [3] * len(names))
+            name = "T%d" % j
+            try:
+                import warnings
+                with numpy.errstate(all="ignore"), warnings.catch_warnings():
+                    warnings.simplefilter("ignore")
+                    p.add_command(eems.command_class(cmd), name, args)
+                    p.commands[name].result
+                outcome = "ok"
+            except Exception as e:
+                outcome = type(e).__name__
+            steps.append((cmd, [a.value for a in args.values()], outcome))
+            for k, a in held.items():
+                m0, d0, _ = snaps[k]
+                m1, d1 = numpy.ma.getmaskarray(a), numpy.ma.getdata(a)
+                if not numpy.array_equal(m0, m1) or not numpy.array_equal(d0[~m0], d1[~m1], equal_nan=True) or p.commands[k]._result is not a:
+                    ctx.fail("after %s(%s) inside a Program the stored result %s changed (missing cells %r -> %r)" % (
+                        cmd, steps[-1][1], k, m0.astype(int).tolist(), m1.astype(int).tolist()),
+                        {"steps": [list(map(repr, s)) for s in steps], "held": {k2: repr(v.tolist()) for k2, v in held.items()}})
+                    snaps[k] = (m1.copy(), d1.copy(), None)
+        ctx.case("nonfinite %d %r %r" % (i, shape, steps), sample=None)
+        ctx.count("c09_nonfinite_programs")
+
+
 def run(ctx):
     ctx.check_proofs(["MPilot.Props.C09"])
     model = common.Model()
@@ -181,6 +243,7 @@ def run(ctx):
     sequences(ctx, model, ctx.budget(60, 2500), 8)
     mixed_shapes(ctx, ctx.budget(150, 4000))
     writers(ctx, ctx.budget(40, 1500))
+    nonfinite_programs(ctx, ctx.budget(40, 1500))
     return ctx.finish(
         rule="(a) every data command incl. single-input forms of n-ary operators: inputs compared before/after one execute; "
              "(b) random sequences of up to 8 consumers (all 31 data commands) over 6 shared producer arrays and the results produced on "
